@@ -3,6 +3,7 @@
 //! and prints one NDJSON verdict/observation per case on stdout.  Panics of the code under test are data.
 mod codegen;
 mod negotiate;
+mod uri;
 mod util;
 
 fn main() {
@@ -12,6 +13,7 @@ fn main() {
     let code = match cmd {
         "codegen-safe" => codegen::codegen_safe(rest),
         "negotiate" => negotiate::negotiate(rest),
+        "uri" => uri::uri(rest),
         _ => {
             eprintln!("unknown subcommand {cmd:?}");
             2
